@@ -35,7 +35,7 @@ fn siblings(kind: &str, defs: &str) -> Vec<String> {
 }
 
 fn subjects_inner(rng: &mut Rng) -> (String, String, bool, &'static str) {
-    match rng.below(12) {
+    match rng.below(13) {
         0 => (
             "'shape = Circle[r: 'int] | Rect[w: 'int, h: 'int] | Tri['int, 'int, 'int], area = #'shape { | =Circle[r: r] => [r, r] __integer_multiply__ | =Rect[w: w, h: h] => [w, h] __integer_multiply__ | =Tri[a, b, c] => [a, [b, c] __integer_add__] __integer_add__ }".into(),
             format!("[Circle[r: {}] area, Rect[w: 2, h: {}] area, Tri[1, 2, 3] area]", rng.range(1, 9), rng.range(1, 9)),
@@ -91,6 +91,17 @@ fn subjects_inner(rng: &mut Rng) -> (String, String, bool, &'static str) {
             format!("ia = &__integer_and__, p = @#{{ m = ! [&ia], m ia }}, [255, {}] p, ix = &__integer_xor__, q = @#{{ !ix }}, [3, 5] q, [!p, !q, &__integer_or__ gb, 5 gb]", rng.range(1, 250)),
             false,
             "builtin-signature",
+        ),
+        10 => (
+            // composite effect results: the backend stamps `[name, kind]` / `[kind, size, modified, mode]`
+            // with type ids the environment pushed to it, so they must follow the merged tables
+            "kd = #(File | Dir | Symlink | Other) { | =File => 1 | =Dir => 2 | 3 }".into(),
+            format!(
+                "d = \"/d\" .0 __directory_read__, e1 = d __directory_next__, e2 = d __directory_next__, e3 = [d __directory_next__], c = d __directory_close__, s = \"/d/a\" .0 __filesystem_stat__, n = [\"/nope{}\" .0 __filesystem_stat__], [e1, e2, e3, s, n, e1.1 kd, s.0 kd]",
+                rng.range(1, 9)
+            ),
+            false,
+            "effect-result-types",
         ),
         9 => (
             // REPL only: a process referenced by number (`@N`), type-tested at run time, compared with the
@@ -160,7 +171,7 @@ impl Property for C10 {
         false
     }
     fn rule_text(&self) -> &'static str {
-        "cases: a subject program (union dispatch, recursive types, partial types, closures with binary captures, typed-receive processes, builtins new to the environment used as receive sources and in type tests, a REPL session that references a process by number (`@N`) and type-tests it, a helper record, C03's confluent process family) is run once as compiled in a fresh environment (reference) and then under variants that draw: 0-6 previously merged programs and REPL lines of a second session (other tuple shapes, same-named tuples with other field types, other constants and builtins), some still running when the subject is merged, merges landing while the subject runs, the load path (run path as compiled / tree-shaken / JSON round trip, or REPL), helpers inlined vs imported from an in-memory module, plus the usual schedule/configuration sampling. History leg = variants with >=1 prior merge; configuration leg = the rest. Non-trivial: >=2 workers, >=1 out-of-order handled message, conclusive. Distinct = distinct (scenario shape + packaging, interleaving hash)."
+        "cases: a subject program (union dispatch, recursive types, partial types, closures with binary captures, typed-receive processes, builtins new to the environment used as receive sources and in type tests, a REPL session that references a process by number (`@N`) and type-tests it, directory listing and stat whose composite results the backend stamps with pushed type ids, a helper record, C03's confluent process family) is run once as compiled in a fresh environment (reference) and then under variants that draw: 0-6 previously merged programs and REPL lines of a second session (other tuple shapes, same-named tuples with other field types, other constants and builtins), some still running when the subject is merged, merges landing while the subject runs, the load path (run path as compiled / tree-shaken / JSON round trip, or REPL), helpers inlined vs imported from an in-memory module, plus the usual schedule/configuration sampling. History leg = variants with >=1 prior merge; configuration leg = the rest. Non-trivial: >=2 workers, >=1 out-of-order handled message, conclusive. Distinct = distinct (scenario shape + packaging, interleaving hash)."
     }
     fn required_probes(&self) -> Vec<&'static str> {
         vec!["history_leg_runs", "configuration_leg_runs", "subject_tree_shaken", "subject_json_roundtrip", "subject_via_repl", "subject_module_import", "merge_while_subject_running", "history_program_still_running_at_merge", "worker_tables_compared"]
@@ -171,11 +182,16 @@ impl Property for C10 {
         h.str(kind);
         h.str(&body.chars().filter(|c| !c.is_ascii_digit()).collect::<String>());
         let e = Expect { defs, body, siblings, uses_hm, reference: None, kind: kind.to_string() };
+        let mut files: BTreeMap<String, Vec<u8>> = BTreeMap::new();
+        if kind == "effect-result-types" {
+            files.insert("/d/a".to_string(), vec![1, 2]);
+            files.insert("/d/b".to_string(), vec![3]);
+        }
         Scenario {
             family: format!("c10-{kind}"),
             ops: vec![],
             modules: vec![(vec!["hm".to_string()], HM_BODY.to_string())],
-            files: Default::default(),
+            files,
             timing: false,
             io: false,
             fixed_faults: Default::default(),
